@@ -401,7 +401,7 @@ def run_shard(campaign, shard, nshards, seed, tier):
             a = rand_address(rng, mode)
             params = {'tx_data_length': tx_dl, 'blocksize': 0, 'stmin': 0}
             if tx_dl > 8:
-                params['can_fd'] = True
+                params['can_fd'] = rng.random() < 0.7        # the flag of the configuration reaches the bus as it is, whatever the frame length
                 params['bitrate_switch'] = rng.random() < 0.5
             if rng.random() < 0.3:
                 params['tx_padding'] = 0xAA
